@@ -43,7 +43,7 @@ def c04_projects(quick: bool, rng: random.Random) -> List[Dict[str, Any]]:
     ps += [p for p in families.t3_reexport() if p["meta"].get("idiom") in ("moved-module", "module-alias-handed-on")
            or (p["meta"].get("form") == "plain" and p["meta"].get("consumers") in (["o"], ["o2"], ["o", "r"]))]
     ps += list(families.t1_base_chains())[:: (6 if quick else 1)] + list(families.t6_nested_packages())
-    ps += list(families.t15_rebinding())
+    ps += list(families.t15_rebinding()) + list(families.t_c04_cycles())
     if not quick:
         ps += [families.random_project(rng, rng.randint(3, 5)) for _ in range(150)]
     return [p for p in ps if len(P.schedules(p)) <= 24]
@@ -110,7 +110,19 @@ def judge_rows(ctx: Ctx, proj: Dict[str, Any], sched: List[int], rows: List[Dict
             v = single.get((r["scope"][0], r["scope"][1], r["name"][0]))
             if v and v[1] == 0 and r["name"][1] in P.top_level_defs(proj, v[0]) and not proj["mods"][v[0] - 1]["broken"]:
                 must.setdefault((r["scope"][0], r["scope"][1], tuple(r["name"])), "module-alias")
+    # what the name denotes under each way of importing the project (one way for acyclic projects)
+    refs: Dict[Tuple[int, int, Tuple[str, ...]], List[List[int]]] = collections.defaultdict(list)
+    for r in rows:
+        k0 = (r["scope"][0], r["scope"][1], tuple(r["name"]))
+        if r["py"] not in refs[k0]:
+            refs[k0].append(r["py"])
+    seen_rows = set()
+    n_entries = len({r.get("e", 1) for r in rows}) or 1
     for row in rows:
+        k0 = (row["scope"][0], row["scope"][1], tuple(row["name"]))
+        if k0 in seen_rows:
+            continue
+        seen_rows.add(k0)
         so = scope_obj(real, proj, row["scope"])
         if so is None:
             counters["scope_missing"] += 1
@@ -125,12 +137,12 @@ def judge_rows(ctx: Ctx, proj: Dict[str, Any], sched: List[int], rows: List[Dict
             ctx.drift_note({"what": "resolve", "family": proj["family"], "meta": proj["meta"], "sched": sched,
                             "scope": row["scope"], "name": name, "spec": spec_res, "real": got})
         origin = {"family": proj["family"], **proj["meta"], "sched": sched, "project": procrun.strip(proj)}
-        if got_obj is not None and got != ref:
-            ctx.violation({"invariant": "ResolvesRightOrNot", "scope": row["scope"], "name": name, "expected_site": ref,
+        if got_obj is not None and got not in refs[k0]:
+            ctx.violation({"invariant": "ResolvesRightOrNot", "scope": row["scope"], "name": name, "expected_site": ref, "expected_sites": refs[k0],
                            "got": repr(got_obj), "got_site": got, "origin": origin,
                            "key": f"wrong:{proj['family']}:{proj['meta'].get('forms')}:{proj['meta'].get('scope')}:{name}"})
         k = (row["scope"][0], row["scope"][1], tuple(row["name"]))
-        if got_obj is None and k in must:
+        if got_obj is None and k in must and (n_entries == 1 or len(refs[k0]) == 1):
             ctx.violation({"invariant": "AlwaysResolves(" + must[k] + ")", "scope": row["scope"], "name": name,
                            "expected_site": ref, "origin": origin,
                            "key": f"must:{proj['family']}:{proj['meta'].get('forms')}:{proj['meta'].get('scope')}:{proj['meta'].get('nested')}:{name}"})
@@ -216,13 +228,27 @@ def kf_definition_then_import(w: Dict[str, Any]) -> bool:
     return False
 
 
-def check_pybind_vs_cpython(ctx: Ctx, proj: Dict[str, Any], rows: List[Dict[str, Any]], pid: int) -> int:
-    d = ctx.scratch / f"cpy_{pid}"
-    d.mkdir()
-    P.write_project(proj, d)
-    o = P.cpython_oracle(proj, d)
-    if "failed" in o or o.get("errors"):
-        return 0
+def check_pybind_vs_cpython(ctx: Ctx, proj: Dict[str, Any], rows: List[Dict[str, Any]], pid: int, invalid: List[int] = ()) -> int:
+    """PyBind.tla against CPython importing the generated files, for every entry order of the project (one for acyclic projects).
+       For cyclic projects the orders in which the interpreter raises must be exactly those PyBind marks invalid."""
+    entries = proj.get("entries") or [list(range(1, len(proj["mods"]) + 1))]
+    total = 0
+    for e, order in enumerate(entries, 1):
+        d = ctx.scratch / f"cpy_{pid}_{e}"
+        d.mkdir()
+        P.write_project(proj, d)
+        o = P.cpython_oracle(proj, d, order if len(entries) > 1 else None)
+        failed = "failed" in o or bool(o.get("errors"))
+        if len(entries) > 1 and failed != (e in invalid):
+            raise MachineryError(f"PyBind.tla and CPython disagree on whether {proj['family']} {proj['meta']} can be imported in the order {order}: "
+                                 f"spec invalid={e in invalid}, CPython errors={o.get('errors') or o.get('failed')}")
+        if failed:
+            continue
+        total += _compare_entry(proj, [r for r in rows if r.get("e", 1) == e], o, order)
+    return total
+
+
+def _compare_entry(proj: Dict[str, Any], rows: List[Dict[str, Any]], o: Dict[str, Any], order: List[int]) -> int:
     pb: Dict[Tuple[int, int], Dict[str, List[int]]] = collections.defaultdict(dict)
     for r in rows:
         if len(r["name"]) == 1:
@@ -237,7 +263,6 @@ def check_pybind_vs_cpython(ctx: Ctx, proj: Dict[str, Any], rows: List[Dict[str,
             sk = (s[0], s[1])
         cp = {name: ([t[1], 0] if t[0] == "mod" else [t[1], t[2]]) for name, t in ns.items() if t}
         # names reached through a class value (C.member along the MRO)
-        cls_names = {nm for nm, t in ns.items() if t and t[0] == "obj"}
         pb2: Dict[str, Dict[str, List[int]]] = collections.defaultdict(dict)
         for r in rows:
             if len(r["name"]) == 2 and (r["scope"][0], r["scope"][1]) == sk and r["name"][0] in o.get("cattrs", {}).get(key, {}):
@@ -246,10 +271,10 @@ def check_pybind_vs_cpython(ctx: Ctx, proj: Dict[str, Any], rows: List[Dict[str,
             cp2 = {a: ([t[1], 0] if t[0] == "mod" else [t[1], t[2]]) for a, t in attrs.items() if t}
             if cp2 != pb2.get(cname, {}):
                 raise MachineryError(f"PyBind.tla (class attribute lookup) disagrees with CPython for {cname} in scope {sk} of "
-                                     f"{proj['family']} {proj['meta']}: spec {pb2.get(cname, {})} vs CPython {cp2}")
+                                     f"{proj['family']} {proj['meta']} (order {order}): spec {pb2.get(cname, {})} vs CPython {cp2}")
             n += len(cp2)
         if cp != pb.get(sk, {}):
-            raise MachineryError(f"PyBind.tla disagrees with CPython in scope {sk} of project {proj['family']} {proj['meta']}: "
+            raise MachineryError(f"PyBind.tla disagrees with CPython in scope {sk} of project {proj['family']} {proj['meta']} (order {order}): "
                                  f"spec {pb.get(sk, {})} vs CPython {cp}")
         n += len(cp)
     return n
@@ -277,7 +302,7 @@ def run(ctx: Ctx) -> int:
             gp = off * 150 + rec["pid"]
             if gp not in seen_pid:
                 seen_pid.add(gp)
-                validated_names += check_pybind_vs_cpython(ctx, proj, rec["rows"], gp)
+                validated_names += check_pybind_vs_cpython(ctx, proj, rec["rows"], gp, rec.get("invalid", []))
             real = P.real_build(proj, rec["sched"], ctx.scratch)
             ctx.traces += 1
             judge_rows(ctx, proj, rec["sched"], rec["rows"], real, counters)
